@@ -8,6 +8,7 @@ INVARIANT ContextOfLast
 INVARIANT NoMemory
 INVARIANT VarianceIdentity
 INVARIANT DSumOrderFree
+INVARIANT NumericKinds
 PROPERTY ResetIsFresh
 PROPERTY ComputeIdempotent
 CHECK_DEADLOCK FALSE
